@@ -81,3 +81,6 @@ macro_rules! fma { ($(($S:ty, $A:ty, $B:ty)),+) => {$(
     impl<'a, 'b, 'c> num_traits::MulAdd<$A, $B> for $S { type Output = Tm; fn mul_add(self, a: $A, b: $B) -> Tm { Tm::op(FMA, &[Tm(self.0), Tm(a.0), Tm(b.0)]) } }
 )+} }
 fma!((Tm, Tm, Tm), (Tm, Tm, &'b Tm), (Tm, &'a Tm, Tm), (Tm, &'a Tm, &'b Tm), (&'c Tm, Tm, Tm), (&'c Tm, Tm, &'b Tm), (&'c Tm, &'a Tm, Tm), (&'c Tm, &'a Tm, &'b Tm));
+// colour components: `full()` is the opaque constant 3; `T::from(k: u8)` the literal 100 + k
+impl vek::ops::ColorComponent for Tm { fn full() -> Tm { Tm::konst(3) } }
+impl From<u8> for Tm { fn from(k: u8) -> Tm { Tm::konst(100 + k) } }
